@@ -40,6 +40,7 @@ func suiteC15(cfg Config, res *Result) {
 	defer c15DashDigit(res)
 	defer optionSteps(res, "whitespace", "c15-options-after-compile")
 	defer c15InheritedTrim(res)
+	defer recursiveMacroNodes(res, "whitespace", "c15-recursive-spaceless", "spaceless")
 	res.Rule = "generated documents whose literal text carries random runs of space / tab / CR / LF around random constructs ({{ }}, if/else/endif, for/endfor, with, set, comment tags), with every subset of the '-' positions per construct, under all four TrimBlocks x LStripBlocks settings, and one compiled template executed under all four settings in turn; metamorphic oracle: the output equals the output of the hand-stripped source (whitespace named by '-' / TrimBlocks / LStripBlocks deleted from the text, markers removed, options off); also compared with the Lean model; non-trivial = document with >= 1 '-' or an option on; distinct by (document, options)"
 	n := 5000
 	if cfg.Thorough() {
